@@ -206,7 +206,7 @@ class Fitter:
                     elif (
                         pass_ == 2
                         and first
-                        and (wrap := match.find_wrapping(first.type))
+                        and (wrap := match.find_wrapping(first.type)) is not None
                     ):
                         return _Fittable(
                             slice_depth,
